@@ -170,7 +170,7 @@ Fixpoint statusLoop (r : rep) (loopMS : Z) (c : tcfg) (repID : string) (startTim
     if cycleInTimescale =? 0 then Panic "calcStatusCode: integer divide by zero" else
     let nrWraps := Z.quot startTime cycleInTimescale in
     let wrapStartS := i64 (nrWraps * cycle) in
-    let firstNr0 := if nrWraps >? 0 then findLastSegNr r loopMS c (i64 (wrapStartS * 1000)) + 1 else 0 in
+    let firstNr0 := if nrWraps >? 0 then findLastSegNr r loopMS c (i64 (wrapStartS * 1000)) + 1 else startNr c in
     do segTime <- findSegStartTime r loopMS c firstNr0;
     let firstNr := if segTime <? i64 (wrapStartS * repTs) then firstNr0 + 1 else firstNr0 in
     let idx := nr - firstNr in
@@ -230,8 +230,14 @@ Definition findSegMeta (r : rep) (loopMS : Z) (c : tcfg) (audio : option (Z * Z)
     [base] is the answer to the same request without the parameter.  0 = panic. *)
 Inductive answer := AStatus (code : Z) | APanic (site : string).
 
+(** the range checks of ParseSegStatusCodes: a pattern outside them makes the URL invalid (400) *)
+Definition codeValid (ss : sscode) : bool :=
+  (0 <? sc_cycle ss) && (sc_cycle ss <=? 2147483647) && (0 <=? sc_rsq ss) &&
+  (400 <=? sc_code ss) && (sc_code ss <=? 599).
+
 Definition segAnswer (r : rep) (loopMS : Z) (c : tcfg) (codes : list sscode) (repID : string)
            (audio : option (Z * Z)) (mode : addressing) (segID nowMS base : Z) : answer :=
+  if negb (forallb codeValid codes) then AStatus 400 else
   if nowMS <? startS c * 1000 then AStatus 425 else
   match codes with
   | [] => AStatus base
@@ -308,7 +314,10 @@ Fixpoint lossLoop (p : list Z) (state : lstate) (dur : Z) (acc : list litvl) : r
     end
   end.
 
-Definition createLossItvls (p : list Z) : res (list litvl) := lossLoop p LUnknown 0 [].
+(** CreateLossItvls: the loop, then the check that the cycle has a positive duration *)
+Definition createLossItvls (p : list Z) : res (list litvl) :=
+  do l <- lossLoop p LUnknown 0 [];
+  if cycleDurS l <=? 0 then Err "invalid loss pattern" else Ok l.
 
 (** strings.Split on ',' over bytes *)
 Fixpoint splitBytes (sep : Z) (p : list Z) : list (list Z) :=
@@ -376,7 +385,7 @@ Definition trafficStep (traffic : list (list litvl)) (segPart : string) (nowMS :
     | Ok (nr, sp) =>
       if nr >=? 0 then
         match nthZ nr traffic with
-        | None => TrPanic "livesimHandlerFunc: index out of range"
+        | None => TrStatus 400 0      (* BaseURL number without a pattern *)
         | Some itvls =>
           match stateAt itvls (Z.quot nowMS 1000) with
           | Panic s => TrPanic s
